@@ -23,7 +23,7 @@ def corpus():
 
 
 def generate(rng, tier):
-    n = 30 if tier == "quick" else 800
+    n = 45 if tier == "quick" else 800
     cases = []
     for i in range(n):
         nfiles = rng.randint(2, 10)
